@@ -311,6 +311,24 @@ def channels(check, prog):
         scal += [x for x in subterms(val) if x[0] == 'call' and isinstance(x[1], tuple)
                  and x[1][0] == 'attr' and x[1][2] == 'item' and
                  x[1][1][0] == 'call' and x[1][1][1] == ('attr', pv, 'sel')]
+        # ... exactly when it is a single number: a test on the rank of the
+        # selection picks the conversion for rank 0 and leaves rank 1 (the
+        # layers of a coated sphere) an array
+        import operator
+        OPS = {'==': operator.eq, '!=': operator.ne, '<': operator.lt,
+               '<=': operator.le, '>': operator.gt, '>=': operator.ge}
+
+        def has_conv(t):
+            return any(x in scal for x in subterms(t))
+        for x in subterms(val):
+            if scal and x[0] == 'ite' and x[1][0] == 'cmp' and x[1][1] in OPS and \
+                    x[1][2][0] == 'attr' and x[1][2][2] == 'ndim' and \
+                    x[1][3][0] == 'num' and has_conv(x[2]) != has_conv(x[3]):
+                k_ = x[1][3][1]
+                for rank in (0, 1):
+                    taken = x[2] if OPS[x[1][1]](rank, k_) else x[3]
+                    if has_conv(taken) != (rank == 0):
+                        scal = []
         check.require(bool(scal), 'S2-select-scalar',
                       'select_scatterer_by_illumination labelled array',
                       'a single selected number is handed on as a scalar', loc,
@@ -642,6 +660,15 @@ def illumination_preparation(check, prog):
             if by_wavelength(t):
                 return own
             if by_polarisation(t):
+                # (a comparison of the two numbers of channels: equal when the
+                # label sets are; anything else about both sets: the hypothesis)
+                if t[0] == 'cmp' and all(x[0] == 'call' and x[1] == 'len'
+                                         for x in (t[2], t[3])):
+                    if t[1] == '==':
+                        return True if perm else None
+                    if t[1] == '!=':
+                        return False if perm else None
+                    return None
                 return perm
             return None
         row = 'len(wavelen)>1=%s, polarization 2-d=%s, polarization has channels=%s, ' \
